@@ -51,11 +51,12 @@ inductive InputView (H : Type) where
 section
 variable {H : Type} [DecidableEq H] (hash : Bytes → H) (verify : Bytes → Bytes → Bytes → Bool)
 
-/-- `verify_signature`: two `copy_from_slice` into `[u8; 32]` / `[u8; 64]` (panic on any other
-    length), then `public_key.verify(data, &sig)`. `none` = panic. -/
+/-- `verify_signature` (after the C33 `fix:`): a key that is not 32 bytes or a signature that is not 64 bytes is
+    `false` (the two `copy_from_slice` used to panic), otherwise `public_key.verify(data, &sig)`. The `Option` is kept
+    for the shape of the callers (`none` was the panic) and is always `some`. -/
 def verifySignature (w : Wit) (msg : Bytes) : Option Bool :=
-  if w.vkey.length ≠ 32 then none
-  else if w.sig.length ≠ 64 then none
+  if w.vkey.length ≠ 32 then some false
+  else if w.sig.length ≠ 64 then some false
   else some (verify w.vkey msg w.sig)
 
 /-- `mk_alonzo_vk_wits_check_list`: `wits.clone().ok_or(err)?` then `(false, w)` for each -/
